@@ -1,2 +1,3 @@
-; ghost: bigF (Array Ref (_ FloatingPoint 11 53))
-; the value held by a *big.Float created by big.NewFloat (exact for float64 arguments)
+; the value held by a *big.Float created by big.NewFloat (exact for float64 arguments); such objects
+; are never mutated by clover, so the value is a function of the reference
+(declare-fun bigOf (Ref) (_ FloatingPoint 11 53))
